@@ -263,6 +263,7 @@ WRITERS = [
     ("zset", ["ZADD", "k", "5", "z"]), ("zset", ["ZADD", "k", "7", "a"]), ("zset", ["ZADD", "k", "1", "a"]), ("zset", ["ZINCRBY", "k", "1", "a"]),
     ("zset", ["ZREM", "k", "a"]), ("zset", ["ZREMRANGEBYRANK", "k", "0", "1"]), ("zset", ["ZREMRANGEBYSCORE", "k", "0", "5"]),
     ("zset", ["ZUNIONSTORE", "k", "1", "z2"]), ("zset", ["ZINTERSTORE", "k", "1", "z2"]),
+    ("zset", ["GEOADD", "k", "10", "10", "g1"]), ("zset", ["GEOADD", "k", "XX", "11", "11", "a"]),
     ("str", ["EXPIRE", "k", "1000"]), ("str", ["EXPIRE", "k", "1000", "NX"]), ("str", ["EXPIRE", "k", "1000", "GT"]), ("str", ["EXPIREAT", "k", "4102444800"]),
     ("str", ["EXPIREAT", "k", "4102444800", "GT"]), ("str", ["PERSIST", "k"]), ("str", ["SETEX", "k", "1000", "v"]), ("str", ["SET", "k", "v", "EX", "1000"]),
 ]
